@@ -21,7 +21,9 @@ struct BudgetState {
     bool armed = false;
     uint64_t max_reads = 0, max_bytes = 0, max_heap = 0;
     uint64_t reads = 0, bytes = 0;
-    uint64_t heap_base = 0, heap_peak = 0; // live bytes at arm time / peak above base while armed
+    uint64_t heap_base = 0, heap_peak = 0; // (heap_base unused) / peak of window_live while armed
+    int64_t window_live = 0;               // bytes this thread allocated minus bytes it freed since the budget was armed: independent of what the
+                                           // thread did before (a thread that frees other threads' blocks has a negative lifetime balance)
     bool tripped = false;
     const char *kind = "";       // "reads" | "bytes" | "heap"
     char site[256] = {0};        // innermost ezc3d function when tripped
@@ -34,7 +36,7 @@ struct BudgetState {
     bool soft = false;           // first trip explained by the claimed counts, load continued
     const char *soft_kind = "";
     char soft_site[256] = {0};
-    uint64_t claimed_values = 0;
+    uint64_t claimed_values = 0, claimed_objects = 0;
 };
 
 // probes supplied by the executor for the object being loaded on this thread (nullptr: no explanation attempted)
